@@ -310,11 +310,53 @@ def run(ctx):
                 drift += 1
         if len(samples) < 6 and len(w) >= 3 and (r["ff"] != "ok" or len(samples) % 2 == 0):
             samples.append({"rule": rn, "children": w, "impl_ff": r["ff"], "impl_codes": r["codes"]})
+    # one Rule object used for many nodes in a row, in both modes (a caller may keep the object get_rule() returned): every call
+    # decides as a fresh object would, whatever the object validated before
+    reuse = 0
+    by_rule = {}
+    for rn, w in cases:
+        if len(by_rule.setdefault(rn, [])) < 14 and len(w) <= 8:
+            by_rule[rn].append(w)
+    for rn, ws in by_rule.items():
+        s = ri.spec[rn]; mixed = rn in ri.mixed
+        pname = ri.elem_for(rn) or "zzUnmapped"
+        if pname == "metadata":
+            continue
+        try:
+            robj = rulemod.Rule(rn)
+        except Exception:
+            continue
+        for w in ws + list(reversed(ws)):
+            impl.reset()
+            n = Node(pname)
+            impl.set_content(n, ri.valid_content(rn, nkids=len(w)))
+            for k, v in ri.valid_attrs(rn):
+                n.add_attribute(k, v)
+            for kn in w:
+                c = Node(kn); n.children.append(c); c.parent = n
+            errs = []
+            try:
+                robj.validate_rule(n, errs)
+                acc_c = not errs
+            except Exception as ex:
+                fails.append({"case": {"rule": rn, "kids": w, "same_rule_object_reused": True}, "what": f"rule {rn}, a Rule object used for several nodes: collecting mode raised {type(ex).__name__} on {w}"})
+                break
+            try:
+                robj.validate_rule(n)
+                acc_ff = True
+            except Exception:
+                acc_ff = False
+            reuse += 1
+            strict = lang.in_lang(s, w, True, mixed); lax = lang.in_lang(s, w, False, mixed)
+            if acc_c != acc_ff or (strict and not acc_c) or (not lax and acc_c):
+                fails.append({"case": {"rule": rn, "kids": w, "same_rule_object_reused": True},
+                              "what": f"rule {rn}, a Rule object used for several nodes in a row: children {w} -> collecting {'accepts' if acc_c else 'rejects'}, fail-fast {'accepts' if acc_ff else 'rejects'}, language membership strict={strict} lax={lax}"})
+                break
     sf, sd, sn, nspec = run_synth(ctx, ri)
     fails += sf; diffs += sd
     dist["synthetic_specs"] = nspec; dist["synthetic_cases"] = sn
     return {
-        "evaluations": len(cases) + sn, "distinct_nontrivial": nontrivial,
+        "evaluations": len(cases) + sn + reuse, "distinct_nontrivial": nontrivial,
         "rule": "per rule: the W-method conformance suite over the minimal DFA of the rule's language (complete for validators with up to k extra states; k=0 quick, k=1 thorough; "
                 "'states' = sum of minimal-DFA sizes, 'transitions' = suite words), every sequence over (names of the rule + one foreign name) up to length 4/3/2 (quick) or 6/5/4/3/2 (thorough) "
                 "by alphabet size, plus sampled words of the language and their single mutations (drop, duplicate, replace, insert, swap, reverse), plus per unbounded element of the rule "
